@@ -100,7 +100,7 @@ def main():
         if rv != 0 or st != code[t]:
             ck.violation("truth_%s.txt" % cid, scripts[cid] + "\n# truth (certificate accepted by the verified checker): %s %s\n# library: rval=%d status=%d\n" % (t, tv, rv, st),
                          "LP %s is %s%s but QSexact_solver (%s) returned rval=%d status=%s" % (lp["name"], t, " with value %s" % tv if tv is not None else "", cfg["entry"], rv, STATUS.get(st, st)),
-                         match=dict(kind="status-mismatch", truth=t, got=STATUS.get(st, str(st)) if rv == 0 else "error", family=fam,
+                         match=dict(kind="status-mismatch", truth=t, got=STATUS.get(st, str(st)) if rv == 0 else "error", family=fam, numbers=lp.get("numbers", "small"),
                                     site=error_site(co.traces[-1]) if co.traces else None))
         elif t == "optimal":
             got = co.acc.get("objval", (1, ["?"]))
